@@ -101,3 +101,83 @@ Proof.
   exists ex_hdr, ex_two82, []. eexists. split; [reflexivity|]. split; [exact ex_two82_ok|]. vm_compute. split; reflexivity.
 Qed.
 Print Assumptions C19_opt82_strip_refuted.
+
+(* ---------------------------------------------------------------- generic option rewrite *)
+(* SetOptionUint32 / SetOptionIP (4-byte value) on every well-formed options area, whatever the number and length
+   of pre-existing instances of the target: the result is again well-formed with the same fixed header and trailer,
+   all other options are preserved in order, the target appears exactly once with the intended value *)
+Theorem C19_rewrite_faithful : forall hdr its trail code val4, length hdr = 240%nat -> Forall item_ok its ->
+  code <> 0 -> code <> 255 -> length val4 = 4%nat ->
+  exists out, set_option4 Repaired (wf_pkt hdr its trail) code val4 = Ok out /\
+    exists its', out = wf_pkt hdr its' trail /\ Forall item_ok its' /\
+      filter (not_code code) (opts_of its') = filter (not_code code) (opts_of its) /\
+      filter (has_code code) (opts_of its') = [(code, val4)].
+Proof. exact set_option4_repaired. Qed.
+Print Assumptions C19_rewrite_faithful.
+
+(* the decoded view of such a result (independent decoder) *)
+Theorem C19_wf_decodes : forall hdr its trail, length hdr = 240%nat -> Forall item_ok its ->
+  ref_options (wf_pkt hdr its trail) = (opts_of its, EndSeen trail).
+Proof. exact ref_options_wf. Qed.
+Print Assumptions C19_wf_decodes.
+
+Example C19_rewrite_nonvacuous :
+  Forall item_ok ex_badlen /\
+  exists out, set_option4 Repaired (wf_pkt ex_hdr ex_badlen []) 51 (put32 3600) = Ok out /\
+              ref_options out = ([(53, [5]); (54, [1;2;3;4]); (51, [0;0;14;16])], EndSeen []).
+Proof. split; [exact ex_badlen_ok|]. eexists. vm_compute. split; reflexivity. Qed.
+Print Assumptions C19_rewrite_nonvacuous.
+
+(* today's code: a target option of another length gets a second copy *)
+Theorem C19_rewrite_faithful_refuted :
+  exists hdr its trail code val4 out, length hdr = 240%nat /\ Forall item_ok its /\ length val4 = 4%nat /\
+    set_option4 Defective (wf_pkt hdr its trail) code val4 = Ok out /\
+    count_opt code (fst (ref_options out)) = 2%nat.
+Proof.
+  exists ex_hdr, ex_badlen, [], 51, (put32 3600). eexists. split; [reflexivity|]. split; [exact ex_badlen_ok|].
+  split; [reflexivity|]. vm_compute. split; reflexivity.
+Qed.
+Print Assumptions C19_rewrite_faithful_refuted.
+
+(* RewriteForProxy: server-id, lease, T1, T2 each exactly once with the intended values (T2 = 7/8 lease computed
+   without wrap-around), everything else preserved in order *)
+Theorem C19_proxy_faithful : forall hdr its trail sid ip4 lease, length hdr = 240%nat -> Forall item_ok its ->
+  to4 sid = Some ip4 ->
+  exists out its', rewrite_for_proxy Repaired (wf_pkt hdr its trail) sid lease = Ok out /\
+    out = wf_pkt hdr its' trail /\ Forall item_ok its' /\
+    filter (has_code 54) (opts_of its') = [(54, ip4)] /\
+    filter (has_code 51) (opts_of its') = [(51, put32 lease)] /\
+    filter (has_code 58) (opts_of its') = [(58, put32 (lease / 2))] /\
+    filter (has_code 59) (opts_of its') = [(59, put32 (lease * 7 / 8))] /\
+    filter proxy_other (opts_of its') = filter proxy_other (opts_of its).
+Proof. exact rewrite_for_proxy_repaired. Qed.
+Print Assumptions C19_proxy_faithful.
+
+Example C19_proxy_nonvacuous :
+  Forall item_ok ex_server /\
+  exists out, rewrite_for_proxy Repaired (wf_pkt ex_hdr ex_server [0]) (Some [10;0;0;1]) 4294967295 = Ok out /\
+    ref_options out = ([(53, [5]); (54, [10;0;0;1]); (51, [255;255;255;255]); (58, [127;255;255;255]);
+                        (59, [223;255;255;255]); (1, [255;255;255;0])], EndSeen [0]).
+Proof. split; [exact ex_server_ok|]. eexists. vm_compute. split; reflexivity. Qed.
+Print Assumptions C19_proxy_nonvacuous.
+
+(* today's code: for the infinite lease T2 (option 59) comes out smaller than T1 (option 58) *)
+Theorem C19_proxy_t2_refuted :
+  exists hdr its trail sid lease out, length hdr = 240%nat /\ Forall item_ok its /\ lease < 4294967296 /\
+    rewrite_for_proxy Defective (wf_pkt hdr its trail) sid lease = Ok out /\
+    be_num (opt_value 59 (fst (ref_options out))) < be_num (opt_value 58 (fst (ref_options out))).
+Proof.
+  exists ex_hdr, ex_server, [], (Some [10;0;0;1]), 4294967295. eexists. split; [reflexivity|]. split; [exact ex_server_ok|].
+  split; [reflexivity|]. vm_compute. split; reflexivity.
+Qed.
+Print Assumptions C19_proxy_t2_refuted.
+
+(* SetGIAddr / IncrementHops touch exactly bytes 24..27 / byte 3 *)
+Theorem C19_giaddr_local : forall pkt gi g, to4 gi = Some g -> (28 <= length pkt)%nat ->
+  set_giaddr pkt gi = firstn 24 pkt ++ g ++ skipn 28 pkt.
+Proof. exact set_giaddr_spec. Qed.
+Print Assumptions C19_giaddr_local.
+Theorem C19_hops_local : forall pkt, (3 < length pkt)%nat ->
+  increment_hops pkt = firstn 3 pkt ++ [(nth 3 pkt 0 + 1) mod 256] ++ skipn 4 pkt.
+Proof. exact increment_hops_spec. Qed.
+Print Assumptions C19_hops_local.
